@@ -43,7 +43,8 @@ def collect(wt, name, prop):
                 "ok": suite_ok, "out": (o1 + o2).strip().splitlines()})
     feats = "--all-features"
     rc3, o3 = sh(f"cargo test --offline {feats} --test demo 2>&1 | grep -E '^test result|^test .* (FAILED|ok)|error(\\[|:)'", cwd=wt)
-    demo_fails = "FAILED" in o3 or "failed" in o3
+    import re
+    demo_fails = "FAILED" in o3 or bool(re.search(r"[1-9][0-9]* failed", o3)) or "error" in o3
     ran.append({"cmd": f"cargo test --offline {feats} --test demo (change applied)", "fails": demo_fails,
                 "out": o3.strip().splitlines()[-8:]})
     sh("git stash", cwd=wt)
